@@ -213,15 +213,15 @@ Example C07_rollback_then_commit_stale :
   i_vals (get_inst s Par 0) = [Some (v 1); Some (v 1)] /\ par_fresh s = false.
 Proof. vm_compute. repeat split. Qed.
 
-(* an assignment on an expired parent instance caches the attribute again but leaves the flag set:
-   the next commit's expire() returns at once *)
-Definition wit_flagged : list op :=
+(* (fixed in the tree, commit 3f1b5b1: an assignment on an expired instance no longer caches the attribute,
+   so the flag-set-but-cached state that made expire() return at once cannot arise any more) *)
+Definition hist_flagged : list op :=
   [OCreate Par false (v 1) (v 1); OGet Txn false 1; OSet 1 0 (v 2); OCommit false; OSet 0 0 (v 5); OSet 1 0 (v 7)].
-Example C07_flagged_instance_stale :
-  let s0 := run cfgF init wit_flagged in
+Example C07_flagged_instance_fixed :
+  let s0 := run cfgF init hist_flagged in
   let s := snd (step cfgF s0 (OCommit false)) in
-  par_fresh s0 = true /\ tbl_lookup (committed s) 1 = Some [v 7; v 1] /\
-  i_vals (get_inst s Par 0) = [Some (v 5); None] /\ i_expired (get_inst s Par 0) = true /\ par_fresh s = false.
+  i_vals (get_inst s0 Par 0) = [None; None] /\ i_expired (get_inst s0 Par 0) = true /\
+  tbl_lookup (committed s) 1 = Some [v 7; v 1] /\ par_fresh s = true /\ fst (step cfgF s (ORead 0 0)) = Ret (RVal (v 7)).
 Proof. vm_compute. repeat split. Qed.
 
 (* cache=False: commit raises AttributeError after the database commit -- the parent's instance of a row
@@ -238,10 +238,10 @@ Example C07_commit_raises :
   tbl_lookup (committed s) 2 = None /\ i_vals (get_inst s Par 1) = [Some (v 2); Some (v 2)] /\ par_fresh s = false.
 Proof. vm_compute. repeat split. Qed.
 
-(* rollback: the instance was purged from the transaction's cache by the first rollback; the second one
-   does not find it and it keeps a = 5 of the rolled-back transaction *)
+(* rollback: the instance was purged from the transaction's cache by the first rollback and reloaded by a
+   read after begin(); the second rollback does not find it and it keeps a = 5 of the rolled-back transaction *)
 Definition wit_rollback : list op :=
-  [OCreate Par false (v 1) (v 1); OGet Txn false 1; ORollback; OBegin; OSet 1 0 (v 5)].
+  [OCreate Par false (v 1) (v 1); OGet Txn false 1; ORollback; OBegin; ORead 1 0; OSet 1 0 (v 5)].
 Lemma C07_rollback_erases_refuted : ~ C07_rollback_erases_full.
 Proof.
   intros H. specialize (H cfgT wit_rollback eq_refl). destruct H as [_ H].
